@@ -38,16 +38,32 @@ def s_csr_decoder():
 
 
 def _reg_spec():
+    # 'fit': the register access mode is derived from the fields (accepted by construction);
+    # otherwise it is drawn freely and the register may be refused
     return st.fixed_dictionaries({
         "tree": gens.field_tree(ALL_ACTIONS, enums=True, max_leaves=5),
         "acc": st.sampled_from(["r", "w", "rw", "rw", "rw"]),
+        "fit": st.sampled_from([True, True, True, True, False]),
     })
+
+
+def reg_access(rs):
+    if not rs.get("fit"):
+        return rs["acc"]
+    r, w = gens.tree_access_needed(rs["tree"])
+    if r and w:
+        return "rw"
+    if r:
+        return "r" if rs["acc"] != "rw" else "rw"
+    if w:
+        return "w" if rs["acc"] != "rw" else "rw"
+    return rs["acc"]
 
 
 def _builder_ops(depth=0):
     name = st.sampled_from(["a", "b", "c", "reg", "x0"])
     add = st.tuples(st.just("add"), name, _reg_spec(),
-                    gens.weighted((2, st.none()), (1, st.integers(0, 24)))).map(list)
+                    gens.weighted((6, st.none()), (1, st.integers(0, 24)))).map(list)
     if depth >= 2:
         return st.lists(add, min_size=1, max_size=3)
     sub = st.deferred(lambda: _builder_ops(depth + 1))
@@ -60,13 +76,14 @@ def _builder_ops(depth=0):
 def s_csr_bridge(draw):
     dw = draw(st.sampled_from([8, 8, 16, 32]))
     g = draw(st.sampled_from([x for x in (8, 16, 32) if dw % x == 0 and x <= dw]))
-    return {"aw": draw(st.integers(2, 8)), "dw": dw, "g": g, "ops": draw(_builder_ops())}
+    return {"aw": draw(st.sampled_from([2, 4, 6, 8, 8, 10, 10])), "dw": dw, "g": g, "ops": draw(_builder_ops())}
 
 
 def s_register():
     return st.fixed_dictionaries({
         "tree": gens.field_tree(ALL_ACTIONS, enums=True, max_leaves=8),
         "acc": st.sampled_from(["r", "w", "rw", "rw"]),
+        "fit": st.sampled_from([True, True, True, False]),
         "via": st.sampled_from(["arg", "arg", "annot"]),
     })
 
@@ -112,18 +129,34 @@ def s_wb_arbiter(draw):
     return dict(geo, intrs=intrs)
 
 
-def s_sram():
-    return st.fixed_dictionaries({"size": st.sampled_from([1, 2, 4, 8, 16, 32, 64, 256, 3]),
-                                  "dw": st.sampled_from([8, 16, 32, 64]),
-                                  "g": st.sampled_from([None, 8, 16, 32, 64]),
-                                  "writable": st.booleans(),
-                                  "init": st.lists(st.integers(0, 255), max_size=6)})
+@st.composite
+def s_sram(draw):
+    dw = draw(st.sampled_from([8, 16, 32, 64]))
+    if draw(st.integers(0, 5)):
+        g = draw(st.sampled_from([None] + [x for x in (8, 16, 32, 64) if x <= dw]))
+        size = (dw // (g or dw)) << draw(st.integers(0 if (g or dw) < dw else 1, 6))
+    else:
+        g = draw(st.sampled_from([None, 8, 16, 32, 64]))
+        size = draw(st.sampled_from([1, 2, 4, 3, 0, 256]))
+    return {"size": size, "dw": dw, "g": g, "writable": draw(st.booleans()),
+            "init": draw(st.lists(st.integers(0, 255), max_size=6))}
 
 
-def s_gpio():
-    return st.fixed_dictionaries({"pins": st.integers(0, 20), "aw": st.integers(1, 6),
-                                  "dw": st.sampled_from([8, 8, 16, 32]),
-                                  "stages": st.integers(0, 3)})
+@st.composite
+def s_gpio(draw):
+    dw = draw(st.sampled_from([8, 8, 16, 32]))
+    pins = draw(st.integers(0, 20)) if draw(st.integers(0, 7)) == 0 else draw(st.integers(1, 20))
+    # address bits needed by Mode/Input/Output/SetClr under natural alignment
+    def span(w):
+        c = max(1, -(-w // dw))
+        return 1 << (c - 1).bit_length()
+    cur = 0
+    for w in (2 * pins, pins, pins, 2 * pins):
+        sp = span(w)
+        cur = -(-cur // sp) * sp + sp
+    need = max(1, (cur - 1).bit_length())
+    return {"pins": pins, "aw": max(1, need + draw(st.sampled_from([0, 0, 0, 1, 2, -1]))), "dw": dw,
+            "stages": draw(st.integers(0, 3))}
 
 
 CLASSES = {
@@ -151,10 +184,11 @@ class Built:
 
 def make_register(rs):
     fields = gens.tree_to_fields(rs["tree"])
+    acc = reg_access(rs)
     if rs.get("via") == "annot" and "d" in rs["tree"]:
         cls = type("AnnotReg", (csr.Register,), {"__annotations__": dict(fields)})
-        return cls(access=rs["acc"])
-    return csr.Register(fields, access=rs["acc"])
+        return cls(access=acc)
+    return csr.Register(fields, access=acc)
 
 
 def build(spec):
